@@ -115,6 +115,12 @@ def run(R):
     # (3) delegation
     R.must_call("C16.add", AMT + "AttoTokens::checked_add", ["*<impl ruint::Uint<BITS, LIMBS>>::checked_add"], "checked_add delegates to Uint::checked_add")
     R.must_call("C16.sub", AMT + "AttoTokens::checked_sub", ["*<impl ruint::Uint<BITS, LIMBS>>::checked_sub"], "checked_sub delegates to Uint::checked_sub")
+    # ... on every path: a fast path computing the sum / difference in a narrower type answers "overflow" for representable results
+    from rules import CallSink as _CS
+    R.must_pass("C16.add.always", AMT + "AttoTokens::checked_add", [("Uint::checked_add", _CS("*<impl ruint::Uint<BITS, LIMBS>>::checked_add"))],
+                descr="every path through checked_add computes the sum with the 256-bit Uint::checked_add")
+    R.must_pass("C16.sub.always", AMT + "AttoTokens::checked_sub", [("Uint::checked_sub", _CS("*<impl ruint::Uint<BITS, LIMBS>>::checked_sub"))],
+                descr="every path through checked_sub computes the difference with the 256-bit Uint::checked_sub")
 
 
 def decimal_only(R):
